@@ -62,7 +62,7 @@ static const struct { const char *pfx; enum kind k; } KTAB[] = {
     { "bput", K_BPUT }, { "bget", K_BGET }, { "oqput", K_OQPUT }, { "oqget", K_OQGET },
     { "pqput", K_PQPUT }, { "pqget", K_PQGET }, { "pqcancel", K_PQCANCEL }, { "pqreprio", K_PQREPRIO },
     { "cwait", K_CWAIT }, { "csig", K_CSIG }, { "setx", K_SETX }, { "ccancel", K_CCANCEL },
-    { "cremove", K_CREMOVE }, { "evsched", K_EVSCHED }, { "evcancel", K_EVCANCEL },
+    { "cremove", K_CREMOVE }, { "csub", K_CSUB }, { "cunsub", K_CUNSUB }, { "evsched", K_EVSCHED }, { "evcancel", K_EVCANCEL },
     { "recon", K_RECON }, { "recoff", K_RECOFF }, { "start", K_START }, { "nop", K_NOP },
     { NULL, K_NOP }
 };
@@ -381,6 +381,10 @@ static bool enabled(int p, const struct opdef *od)
         return D.has_cond || od->kind == K_SETX;
     case K_CCANCEL: case K_CREMOVE:
         return D.has_cond && q != p && q < D.P && D.inited[q];
+    case K_CSUB:
+        return D.has_cond && D.nres > 0 && D.sub_res == 0;
+    case K_CUNSUB:
+        return D.has_cond && D.nres > 0 && D.sub_res != 0;
     case K_EVSCHED:
         return D.envev[0] == 0 || D.envev[1] == 0
                || !cmb_event_is_scheduled(D.envev[0]) || !cmb_event_is_scheduled(D.envev[1]);
@@ -545,7 +549,7 @@ static uint64_t canon_hash(void)
     for (int k = 0; k < NENVEV; k++) {
         h = vx_mix(h, (uint64_t)(D.envev[k] != 0 && cmb_event_is_scheduled(D.envev[k])));
     }
-    h = vx_mix(h, (uint64_t)D.rec_state);
+    h = vx_mix(h, (uint64_t)D.rec_state * 4 + (uint64_t)D.sub_res);
     for (int m = 0; m < nmons; m++) {
         if (mons[m]->hash) {
             h = vx_mix(h, mons[m]->hash());
@@ -792,6 +796,17 @@ static int64_t do_op(int p, const struct opdef *od)
             break;
         }
         ret = cmb_condition_remove(&D.cond, &D.procs[q]);
+        break;
+    case K_CSUB:
+        cmb_condition_subscribe(&D.cond, &D.res[0].guard);
+        D.sub_res = 2;
+        break;
+    case K_CUNSUB:
+        ret = cmb_condition_unsubscribe(&D.cond, &D.res[0].guard);
+        if (!ret) {
+            VFAIL("c13:unsubscribe-return-value", "unsubscribing the condition from the guard it observes returned false");
+        }
+        D.sub_res = 0;
         break;
     case K_EVSCHED: {
         const int k = (D.envev[0] == 0 || !cmb_event_is_scheduled(D.envev[0])) ? 0 : 1;
@@ -1072,14 +1087,19 @@ static void run_one(void)
         memset(&D.cond, 0, sizeof D.cond);
         cmb_condition_initialize(&D.cond, "COND");
         const char *sub = vx_opt("subscribe", "");
+        D.sub_res = 0;
+        D.sub_pool = false;
         if (strstr(sub, "res") && D.nres > 0) {
             cmb_resourceguard_register(&D.res[0].guard, &D.cond.guard);
+            D.sub_res = 1;
         }
         if (strstr(sub, "pool") && D.has_pool) {
             cmb_resourceguard_register(&D.pool.guard, &D.cond.guard);
+            D.sub_pool = true;
         }
         if (strstr(sub, "csub") && D.nres > 0) {
             cmb_condition_subscribe(&D.cond, &D.res[0].guard);
+            D.sub_res = 2;
         }
     }
     for (int p = 0; p < P; p++) {
